@@ -96,6 +96,3 @@ def run(chk):
     if nexact == 0:
         chk.violation('harness', 'no tessellation record exercised the exact predicate', None)
     chk.sample({'backends': sorted(bins), 'insphere_records': len(results.get(('insphere', ref), [])), 'tess_records': len(results.get(('tess', ref), []))})
-    if chk.unparsed and not chk.violations:
-        chk.soft.append('InSphere fragment unparsed; the four built backends agree bitwise on %d records' % chk.evaluations)
-        chk.obligations = [o for o in chk.obligations if o['module'] not in ('MVoro.Obl.InSphere', 'MVoro.Props.C11')]
